@@ -260,6 +260,19 @@ def one_case(run, seed, idx, mods):
     r = rng(seed, "C03", idx)
     kind = KINDS[idx % 7] if idx % 3 else "triclinic"
     cell = gen_cell(r, kind)
+    # one long axis and a high limit: indices beyond 127 (the documented working range is |h| < 200) while the number of
+    # reflections stays moderate.  Which axis is long rotates with the case; own stream, so other cases are unchanged.
+    long_axis = (idx % 25 == 7)
+    if long_axis:
+        rl = rng(seed, "C03", idx, "long-axis")
+        kind = ("orthorhombic", "monoclinic", "triclinic")[(idx // 25) % 3]
+        while True:
+            cell = gen_cell(rl, kind)
+            ax = (idx // 75 + int(rl.integers(3))) % 3
+            for i in range(3):
+                cell[i] = float(rl.uniform(25, 30)) if i == ax else float(rl.uniform(2.0, 2.6))
+            if volume_ok(cell):
+                break
     sym = "PABCIFR"[(idx // 7) % 7] if idx % 2 else "PABCIFR"[int(r.integers(7))]
     # aim for a target number of lattice points in the sphere: N ~ 4/3 pi ds^3 V
     G = metric(cell).astype(float)
@@ -268,6 +281,9 @@ def one_case(run, seed, idx, mods):
     dsmax = float((target / (4.19 * V)) ** (1 / 3.0))
     # keep the walk bound (|h|<200) out of play
     dsmax = min(dsmax, 150.0 / max(cell[:3]))
+    if long_axis:
+        dsmax = float(rl.uniform(129.0, 150.0)) / max(cell[:3])
+        run.count("long_axis_cases_index_beyond_127")
     tol = float(10 ** r.uniform(-4, np.log10(5e-2)))
     # construction route drawn from a stream of its own (so the older dimensions of case idx are unchanged)
     rr = rng(seed, "C03", idx, "route")
@@ -437,6 +453,7 @@ def check(run, replay=None):
     run.require_counter("limit_on_a_shell_calls", 200)
     run.require_counter("ring_tolerance_equal_to_a_gap", 50)
     run.require_counter("cache_hit_calls", 50)
+    run.require_counter("long_axis_cases_index_beyond_127", 5)
     run.require_counter("cache_hit_makerings", 10)
     run.require_counter("assigntorings_tables", 20)
     for rt in set(ROUTES):
